@@ -24,6 +24,7 @@ def gen_history(rng):
     fns = []
     fns0 = []
     arrs = []
+    ghosts = []
     hist = []
     k = 0
     for _ in range(n):
@@ -32,8 +33,17 @@ def gen_history(rng):
 
         def pick(lst):
             return rng.choice(lst) if lst else None
+        if ghosts and rng.random() < 0.12:
+            # a name that only a rejected line tried to define: still undefined (or still its old self)
+            hist.append((rng.choice(["puts(%s);", "%s", "let gg%d = %s;" % (k, "%s")]) % pick(ghosts), "ok"))
+            continue
         if c < 0.22 or not names:
             nm = "v%d" % k
+            if rng.random() < 0.15:
+                # a binding that shares its name with a builtin the generated lines never call
+                free = [b for b in ("first", "last", "rest", "str", "int", "time", "sort", "chars", "round", "contains", "get", "float", "join") if b not in names]
+                if free:
+                    nm = rng.choice(free)
             rhs = str(rng.randint(0, 50)) if not names or rng.random() < 0.5 else "%s + %d" % (pick(names), rng.randint(1, 9))
             hist.append(("let %s = %s;" % (nm, rhs), "ok"))
             names.append(nm)
@@ -76,7 +86,13 @@ def gen_history(rng):
                                       "let m%d = 1; zz" % k, "return 1;", "fn h%d(a) { let q = a; { let r = q; } r }" % k, "%s = zz" % nm,
                                       "let p%d = fn() { zz };" % k, "match 1 { 1 => 1, \"a\" => 2 }",
                                       "if true { let %s = 5; zz; }" % nm, "{ let %s = \"inner\"; zz }" % nm, "while false { let %s = 2; zz }" % nm,
-                                      "fn e%d(%s) { zz }" % (k, nm), "let t%d = \"lit\"; let u%d = [1, 2.5, \"more\"]; zz" % (k, k)]), "compile"))
+                                      "fn e%d(%s) { zz }" % (k, nm), "let t%d = \"lit\"; let u%d = [1, 2.5, \"more\"]; zz" % (k, k),
+                                      # rejected for its size (operand limit), after definitions that compiled fine
+                                      "let big%d = 2; let %s = 3; puts(%s);" % (k, nm, ", ".join("1" for _ in range(256))),
+                                      "fn bigf%d() { 1 } let %s = 4; fn many%d(%s) { 0 }" % (k, nm, k, ", ".join("q%d" % i for i in range(300)))]), "compile"))
+            for w in ("n%d" % k, "m%d" % k, "g%d" % k, "p%d" % k, "t%d" % k, "u%d" % k, "big%d" % k, "bigf%d" % k, "e%d" % k, "h%d" % k):
+                if w in hist[-1][0]:
+                    ghosts.append(w)
         else:
             nm = "w%d" % k
             pre = "let %s = %d; puts(\"before %d\");" % (nm, k, k)
